@@ -309,3 +309,260 @@ Example C04_iff_early_report_nonvacuous :
   first_offence None ex_ahead = Some (4%nat, OverSale) /\
   effective (fst (run exact None ex_ahead)) = rows_before None ex_ahead 2.
 Proof. split; [hyps_tac|]. vm_compute. repeat split. Qed.
+
+(* ==== The output layer: what the writers make of the render model ============
+   Model/Output.v models app/outfmt/{csv,text}.rs and approot.rs
+   write_render_result over the render model (RenderTable: header, rows,
+   footer, notes, errors); Proofs/OutputProps.v proves what reaches the files
+   of --csv-output-dir and standard output.  Hypotheses about the world
+   (design.d/C04-output.md): a file holds what was written to it since its
+   File::create; the csv crate writes a record so that a CSV reader recovers
+   its fields; writes to standard output succeed. *)
+From Coq Require Import Permutation.
+From ACB Require Import Model.CsvFields Model.App Model.Gains Model.Render Model.Output Proofs.RenderProps Proofs.OutputProps.
+Local Open Scope N_scope.
+
+(* Every error of every security table reaches the user in every output mode.
+   For ANY AppRenderResult r (ar_secs = the HashMap of tables, keys distinct),
+   any security s with table t and any error message e of t:
+   (i) e is in the render model (the table found under s);
+   (ii) --csv-output-dir, started on any directory d0, when the run succeeds and
+        s's file is not one of the report files written later (tail_files:
+        aggregate-gains.csv, total-costs.csv, yearly-max-costs.csv - see
+        C04_reserved_name_refuted): the file <s>.csv holds the record
+        ("[!] " ++ e, "", ..., "") (as many fields as the header);
+   (iii) text mode, when the run succeeds: the section titled
+        "Transactions for <s>" carries e, and "[!] <e>" is a line of stdout;
+   (iv) s is in the closing list *)
+Theorem C04_error_visible_every_mode : forall r s t e,
+  NoDup (map fst (ar_secs r)) -> In (s, t) (ar_secs r) -> In e (rt_errors t) ->
+  (blookup s (ar_secs r) = Some t /\ In e (rt_errors t)) /\
+  (forall d0, ro_fail (csv_dir_output d0 r) = None -> ~ In (file_name OTransactions s) (tail_files r) ->
+     exists recs, blookup (file_name OTransactions s) (ro_state (csv_dir_output d0 r)) = Some (EFile recs) /\
+                  In (pad_record (length (rt_header t)) (lit s_bang ++ e)) recs) /\
+  (ro_fail (text_output r) = None ->
+     In (text_section OTransactions s t) (ro_state (text_output r)) /\
+     In e (sc_errors (text_section OTransactions s t)) /\
+     sc_title (text_section OTransactions s t) = [PLit s_transactions_for; PLit s] /\
+     In (TLine (lit s_bang ++ e)) (text_stdout r)) /\
+  In s (errsecs_of r).
+Proof. exact OutputProps.error_visible_every_mode. Qed.
+Check C04_error_visible_every_mode : forall r s t e,
+  NoDup (map fst (ar_secs r)) -> In (s, t) (ar_secs r) -> In e (rt_errors t) ->
+  (blookup s (ar_secs r) = Some t /\ In e (rt_errors t)) /\
+  (forall d0, ro_fail (csv_dir_output d0 r) = None -> ~ In (file_name OTransactions s) (tail_files r) ->
+     exists recs, blookup (file_name OTransactions s) (ro_state (csv_dir_output d0 r)) = Some (EFile recs) /\
+                  In (pad_record (length (rt_header t)) (lit s_bang ++ e)) recs) /\
+  (ro_fail (text_output r) = None ->
+     In (text_section OTransactions s t) (ro_state (text_output r)) /\
+     In e (sc_errors (text_section OTransactions s t)) /\
+     sc_title (text_section OTransactions s t) = [PLit s_transactions_for; PLit s] /\
+     In (TLine (lit s_bang ++ e)) (text_stdout r)) /\
+  In s (errsecs_of r).
+Print Assumptions C04_error_visible_every_mode.
+
+(* The closing list names exactly the securities whose table carries an error,
+   each once, in String order (bytewise), whatever the order of the map (C09) *)
+Theorem C04_closing_list_exact : forall r,
+  NoDup (map fst (ar_secs r)) ->
+  Sorted.StronglySorted bytes_le (errsecs_of r) /\ NoDup (errsecs_of r) /\
+  forall s, In s (errsecs_of r) <-> exists t, In (s, t) (ar_secs r) /\ rt_errors t <> [].
+Proof. exact OutputProps.closing_list_spec. Qed.
+Check C04_closing_list_exact : forall r,
+  NoDup (map fst (ar_secs r)) ->
+  Sorted.StronglySorted bytes_le (errsecs_of r) /\ NoDup (errsecs_of r) /\
+  forall s, In s (errsecs_of r) <-> exists t, In (s, t) (ar_secs r) /\ rt_errors t <> [].
+Print Assumptions C04_closing_list_exact.
+
+(* ... and that list is what standard output ends with in both modes: nothing
+   when it is empty, else an empty line and
+   "[!] There are errors for the following securities: A, B" *)
+Theorem C04_closing_line_every_mode : forall r,
+  (forall d0, ro_fail (csv_dir_output d0 r) = None -> csv_dir_stdout d0 r = closing_items (errsecs_of r)) /\
+  (ro_fail (text_output r) = None -> exists body, text_stdout r = body ++ closing_items (errsecs_of r)).
+Proof. exact OutputProps.closing_line_every_mode. Qed.
+Check C04_closing_line_every_mode : forall r,
+  (forall d0, ro_fail (csv_dir_output d0 r) = None -> csv_dir_stdout d0 r = closing_items (errsecs_of r)) /\
+  (ro_fail (text_output r) = None -> exists body, text_stdout r = body ++ closing_items (errsecs_of r)).
+Print Assumptions C04_closing_line_every_mode.
+
+(* The whole pipeline (ledger -> gains -> render, Model/Render.v render_app, any
+   arithmetic) hands the writers tables they accept: every row and footer has
+   the 16 (2) fields of its header, so neither the csv crate's equal-length
+   check nor the column arithmetic of the text writer can stop the run
+   (costs tables, rendered outside Model/Render.v, assumed rectangular) *)
+Theorem C04_pipeline_writers_succeed : forall (A : arith) full cur inits rows rep secname errmsg costs d0,
+  render_app A full cur inits rows = Ok rep -> costs_rect costs ->
+  match costs with Some (a, b) => rt_header a <> [] /\ rt_header b <> [] | None => True end ->
+  no_blocked d0 ->
+  ro_fail (csv_dir_output d0 (app_of_report secname errmsg costs rep)) = None /\
+  ro_fail (text_output (app_of_report secname errmsg costs rep)) = None.
+Proof. exact OutputProps.pipeline_writers_succeed. Qed.
+Check C04_pipeline_writers_succeed : forall (A : arith) full cur inits rows rep secname errmsg costs d0,
+  render_app A full cur inits rows = Ok rep -> costs_rect costs ->
+  match costs with Some (a, b) => rt_header a <> [] /\ rt_header b <> [] | None => True end ->
+  no_blocked d0 ->
+  ro_fail (csv_dir_output d0 (app_of_report secname errmsg costs rep)) = None /\
+  ro_fail (text_output (app_of_report secname errmsg costs rep)) = None.
+Print Assumptions C04_pipeline_writers_succeed.
+
+(* ... and for a security the ledger rejects (stop = SRej e) the message
+   (errmsg s: the text of err_msg is not modelled) is in its table, in its
+   file, in its text section, and its name in the closing list.  secname: the
+   securities' names (distinct) *)
+Theorem C04_pipeline_error_visible : forall (A : arith) full cur inits rows rep secname errmsg costs s e tb,
+  (forall a b, secname a = secname b -> a = b) ->
+  render_app A full cur inits rows = Ok rep ->
+  In (s, Some (SRej e), tb) (rp_tables rep) ->
+  let r := app_of_report secname errmsg costs rep in
+  let t := rtable_of_table tb [errmsg s] in
+  In (secname s, t) (ar_secs r) /\ rt_errors t = [errmsg s] /\
+  (forall d0, ro_fail (csv_dir_output d0 r) = None -> ~ In (file_name OTransactions (secname s)) (tail_files r) ->
+     exists recs, blookup (file_name OTransactions (secname s)) (ro_state (csv_dir_output d0 r)) = Some (EFile recs) /\
+                  In (pad_record 16 (lit s_bang ++ errmsg s)) recs) /\
+  (ro_fail (text_output r) = None ->
+     In (text_section OTransactions (secname s) t) (ro_state (text_output r)) /\
+     In (TLine (lit s_bang ++ errmsg s)) (text_stdout r)) /\
+  In (secname s) (errsecs_of r).
+Proof. exact OutputProps.pipeline_error_visible. Qed.
+Check C04_pipeline_error_visible : forall (A : arith) full cur inits rows rep secname errmsg costs s e tb,
+  (forall a b, secname a = secname b -> a = b) ->
+  render_app A full cur inits rows = Ok rep ->
+  In (s, Some (SRej e), tb) (rp_tables rep) ->
+  let r := app_of_report secname errmsg costs rep in
+  let t := rtable_of_table tb [errmsg s] in
+  In (secname s, t) (ar_secs r) /\ rt_errors t = [errmsg s] /\
+  (forall d0, ro_fail (csv_dir_output d0 r) = None -> ~ In (file_name OTransactions (secname s)) (tail_files r) ->
+     exists recs, blookup (file_name OTransactions (secname s)) (ro_state (csv_dir_output d0 r)) = Some (EFile recs) /\
+                  In (pad_record 16 (lit s_bang ++ errmsg s)) recs) /\
+  (ro_fail (text_output r) = None ->
+     In (text_section OTransactions (secname s) t) (ro_state (text_output r)) /\
+     In (TLine (lit s_bang ++ errmsg s)) (text_stdout r)) /\
+  In (secname s) (errsecs_of r).
+Print Assumptions C04_pipeline_error_visible.
+
+(* The rejected security is left out of every capital-gain total (exact
+   arithmetic): the footer of its table - which the writers copy, C06_csv_dir_is_render_model -
+   is "Total" / "$0" without years, and the aggregate table renders the
+   aggregate of the gains records of the error-free securities only
+   (gs holds None for a stopped security; some_gains drops them) *)
+Theorem C04_rejected_security_no_totals : forall full cur inits rows rep,
+  render_app exact full cur inits rows = Ok rep ->
+  (forall s st tb, In (s, Some st, tb) (rp_tables rep) ->
+     tb_labels tb = [LTotal] /\ tb_values tb = [pm_value full 0%Qc false] /\
+     footer_cells tb = repeat [] 8%nat ++ [[PLit s_total]; pm_pieces (pm_value full 0%Qc false)] ++ repeat [] 6%nat) /\
+  exists secs gs agg,
+    run_app exact inits rows = Ok secs /\
+    Forall2 (fun (x : sec_result) og =>
+               match snd (snd x) with
+               | None => exists g, security_gains exact gains0 (gain_rows (fst (snd x))) = Ok g /\ og = Some g
+               | Some _ => og = None
+               end) secs gs /\
+    aggregate exact gains0 (some_gains gs) = Ok agg /\
+    render_aggregate exact full agg = Ok (rp_aggregate rep).
+Proof. exact OutputProps.pipeline_rejected_no_totals. Qed.
+Check C04_rejected_security_no_totals : forall full cur inits rows rep,
+  render_app exact full cur inits rows = Ok rep ->
+  (forall s st tb, In (s, Some st, tb) (rp_tables rep) ->
+     tb_labels tb = [LTotal] /\ tb_values tb = [pm_value full 0%Qc false] /\
+     footer_cells tb = repeat [] 8%nat ++ [[PLit s_total]; pm_pieces (pm_value full 0%Qc false)] ++ repeat [] 6%nat) /\
+  exists secs gs agg,
+    run_app exact inits rows = Ok secs /\
+    Forall2 (fun (x : sec_result) og =>
+               match snd (snd x) with
+               | None => exists g, security_gains exact gains0 (gain_rows (fst (snd x))) = Ok g /\ og = Some g
+               | Some _ => og = None
+               end) secs gs /\
+    aggregate exact gains0 (some_gains gs) = Ok agg /\
+    render_aggregate exact full agg = Ok (rp_aggregate rep).
+Print Assumptions C04_rejected_security_no_totals.
+
+(* The exception of (ii).  A security whose name is that of a report file
+   ("aggregate-gains"; "total-costs" / "yearly-max-costs" with --total-costs)
+   shares its file with that report, which is written later and replaces it
+   (File::create truncates): its error message reaches no file.  Witness: one
+   rejected security named "aggregate-gains" (replayed on the real binary by
+   the check: known finding reserved-file-name). *)
+Definition ex_t2 (rows : list record) (errs : list text) : rtable :=
+  {| rt_header := [lit [72]; lit [73]]; rt_rows := rows; rt_footer := []; rt_notes := []; rt_errors := errs |}.
+Definition ex_agg_name : bytes := [97; 103; 103; 114; 101; 103; 97; 116; 101; 45; 103; 97; 105; 110; 115]%N.   (* "aggregate-gains" *)
+Definition ex_reserved : app_result :=
+  {| ar_secs := [(ex_agg_name, ex_t2 [] [lit [98; 111; 111; 109]])];
+     ar_agg := ex_t2 [[lit [49]; lit [50]]] []; ar_costs := None |}.
+(* refuted for reserved names *)
+Theorem C04_reserved_name_refuted : exists r s t e,
+  NoDup (map fst (ar_secs r)) /\ In (s, t) (ar_secs r) /\ In e (rt_errors t) /\
+  ro_fail (csv_dir_output [] r) = None /\
+  forall fn recs, blookup fn (ro_state (csv_dir_output [] r)) = Some (EFile recs) ->
+                  ~ In (pad_record (length (rt_header t)) (lit s_bang ++ e)) recs.
+Proof. 
+  exists ex_reserved, ex_agg_name, (ex_t2 [] [lit [98; 111; 111; 109]%N]), (lit [98; 111; 111; 109]%N).
+  split; [repeat constructor; intros []|]. split; [left; reflexivity|]. split; [left; reflexivity|].
+  split; [vm_compute; reflexivity|].
+  assert (E : ro_state (csv_dir_output [] ex_reserved)
+              = [(s_aggregate_gains_csv, EFile [[lit [72]; lit [73]]; [lit [49]; lit [50]]])]%N) by (vm_compute; reflexivity).
+  intros fn recs H. rewrite E in H. cbn [blookup] in H.
+  destruct (beqb s_aggregate_gains_csv fn); [|discriminate H]. inversion H; subst. clear H.
+  intros [H|[H|[]]]; vm_compute in H; discriminate H.
+ Qed.
+Check C04_reserved_name_refuted : exists r s t e,
+  NoDup (map fst (ar_secs r)) /\ In (s, t) (ar_secs r) /\ In e (rt_errors t) /\
+  ro_fail (csv_dir_output [] r) = None /\
+  forall fn recs, blookup fn (ro_state (csv_dir_output [] r)) = Some (EFile recs) ->
+                  ~ In (pad_record (length (rt_header t)) (lit s_bang ++ e)) recs.
+Print Assumptions C04_reserved_name_refuted.
+
+(* ---- non-vacuity: two securities listed out of order, "ZZ" rejected at its
+   first row (no data rows, footer, one error), "AA" healthy with a note ---- *)
+Definition ex_zz : bytes := [90; 90].
+Definition ex_aa : bytes := [65; 65].
+Definition ex_boom : text := lit [98; 111; 111; 109].     (* "boom" *)
+Definition ex_tab (rows : list record) (footer notes errs : list text) : rtable :=
+  {| rt_header := [lit [72]; lit [73]]; rt_rows := rows; rt_footer := footer; rt_notes := notes; rt_errors := errs |}.
+Definition ex_out : app_result :=
+  {| ar_secs := [(ex_zz, ex_tab [] [[]; lit [36; 48]] [] [ex_boom]);
+                 (ex_aa, ex_tab [[lit [49]; lit [50]]] [] [lit [110]] [])];
+     ar_agg := ex_tab [[lit [51]; lit [52]]] [] [] []; ar_costs := None |}.
+Example C04_output_nonvacuous :
+  NoDup (map fst (ar_secs ex_out)) /\
+  ro_fail (csv_dir_output [] ex_out) = None /\ ro_fail (text_output ex_out) = None /\
+  write_log ex_out = [ex_aa ++ s_dot_csv; ex_zz ++ s_dot_csv; s_aggregate_gains_csv] /\
+  tail_files ex_out = [s_aggregate_gains_csv] /\
+  blookup (ex_zz ++ s_dot_csv) (ro_state (csv_dir_output [] ex_out))
+    = Some (EFile [[lit [72]; lit [73]]; [[]; lit [36; 48]]; [lit s_bang ++ ex_boom; []]]) /\
+  blookup (ex_aa ++ s_dot_csv) (ro_state (csv_dir_output [] ex_out))
+    = Some (EFile [[lit [72]; lit [73]]; [lit [49]; lit [50]]; [lit [110]; []]]) /\
+  errsecs_of ex_out = [ex_zz] /\
+  csv_dir_stdout [] ex_out = [TLine []; TLine (lit (s_closing ++ ex_zz))] /\
+  map sc_title (ro_state (text_output ex_out))
+    = [[PLit s_transactions_for; PLit ex_aa]; [PLit s_transactions_for; PLit ex_zz]; lit s_aggregate_gains] /\
+  In (TLine (lit s_bang ++ ex_boom)) (text_stdout ex_out).
+Proof.
+  split; [repeat constructor; cbn; intuition discriminate|].
+  vm_compute. repeat split; try reflexivity. do 4 right. left. reflexivity.
+Qed.
+
+(* the pipeline on the over-sale of C04_nonvacuous: security 0 named "FOO" is
+   rejected after two rows; both writers succeed; the file carries the rows,
+   the "Total $0.00" footer and the error record *)
+Definition ex_foo : bytes := [70; 79; 79].
+Definition ex_secname (s : N) : bytes := ex_foo ++ repeat 88%N (N.to_nat s).
+Definition ex_errmsg (s : N) : text := ex_boom.
+Definition ex_cur04 (t : tx) : bytes * bytes := (s_cad, s_cad).
+Example C04_pipeline_output_nonvacuous :
+  match render_app exact false ex_cur04 [] ex_over with
+  | Ok rep =>
+      let r := app_of_report ex_secname ex_errmsg None rep in
+      (exists tb, rp_tables rep = [(0%N, Some (SRej RejOversale), tb)] /\ length (tb_rows tb) = 2%nat) /\
+      ro_fail (csv_dir_output [] r) = None /\ ro_fail (text_output r) = None /\
+      errsecs_of r = [ex_foo] /\
+      match blookup (ex_foo ++ s_dot_csv) (ro_state (csv_dir_output [] r)) with
+      | Some (EFile recs) =>
+          length recs = 5%nat /\
+          nth 3 recs [] = repeat [] 8%nat ++ [[PLit s_total]; [PLit [36]; PLit [48; 46; 48; 48]]] ++ repeat [] 6%nat /\
+          nth 4 recs [] = (lit s_bang ++ ex_boom) :: repeat [] 15%nat
+      | _ => False
+      end
+  | _ => False
+  end.
+Proof. vm_compute. repeat split; try reflexivity. eexists. split; reflexivity. Qed.
